@@ -30,9 +30,17 @@ def bounded(it):
     return list(itertools.islice(it, LIMIT))
 
 
-def run(cls, acts, n):
-    elems = [None] + [E(i) for i in range(1, n + 1)]
-    idx = lambda xs: [x.i if isinstance(x, E) else -1 for x in xs]
+# plain values as elements: the ones a truth test takes for nothing (0, '', ()) among them
+PLAIN = [0, '', (), 'x', 5, -1, 2.5, 'y']
+
+
+def run(cls, acts, n, plain=False):
+    if plain:
+        elems = [None] + PLAIN[:n]
+        idx = lambda xs: [([k for k, v in enumerate(elems) if k and type(v) is type(x) and v == x] or [-1])[0] for x in xs]
+    else:
+        elems = [None] + [E(i) for i in range(1, n + 1)]
+        idx = lambda xs: [x.i if isinstance(x, E) else -1 for x in xs]
     obj = cls()
     other = cls()            # the result of the latest pure operator (or the set parked by Swap)
     events = []
@@ -46,9 +54,9 @@ def run(cls, acts, n):
                   ev['x'] = args[0]
                   getattr(obj, name.lower())(elems[args[0]])
               elif name == 'PopLast':
-                  res = {'k': 'val', 'v': obj.pop().i}
+                  res = {'k': 'val', 'v': idx([obj.pop()])[0]}
               elif name == 'PopFirst':
-                  res = {'k': 'val', 'v': obj.pop(last=False).i}
+                  res = {'k': 'val', 'v': idx([obj.pop(last=False)])[0]}
               elif name == 'Clear':
                   obj.clear()
               elif name == 'Swap':
@@ -102,7 +110,7 @@ def run(cls, acts, n):
                   visited = []
                   for x in itertools.islice(iter(obj) if name == 'IterRemove' else reversed(obj), LIMIT):
                       visited.append(x)
-                      if x.i in F:
+                      if idx([x])[0] in F:
                           obj.remove(x)
                   res = {'k': 'seq', 'q': idx(visited)}
               elif name in ('Eq', 'Ne'):
@@ -154,7 +162,7 @@ def main(plan_path, out_path):
     out = []
     for r in plan['runs']:
         cls = getattr(xtuml, r['cls'])
-        out.append(run(cls, r['acts'], plan['n']))
+        out.append(run(cls, r['acts'], plan['n'], bool(r.get('plain'))))
     json.dump(out, open(out_path, 'w'))
 
 
